@@ -64,7 +64,8 @@ IPV_EXTRA = ["9.9.9.9\x00", "\x00", "9.9.9.9\x00.example", "::1\x00", "1" * 64, 
              "4.4.4.\xb2", "4.4.4\xad.4", "\uff14.4.4.4", "4\u3002" + "4.4.4", "1.2.3.4.5", "256.1.1.1", "1.2.3.256", "192.168.1.300", "999.999.999.999", "1.2.300.4", "01.2.3.4", "1.2.3", "0x7f.0.0.1",
              "[::1]", "::1]", "1.2.3.4:80", "1.2.3.4/8", "fe80::1%lo", "fe80::1%nosuchif",
              "1.2.3.4%lo", "localhost", "example.com", "", "-1", "1e3", "1:2:3:4:5:6:7:8",
-             "1:2:3:4:5:6:7:8:9", "1:2:3:4:5:6:7", "12345::1", "g::1"]
+             "1:2:3:4:5:6:7:8:9", "1:2:3:4:5:6:7", "12345::1", "g::1",
+             "::1%<b>", '::ffff:4.4.4.4%"; x', "fe80::1%eth0 x", "::1%a b", "FE80::1", "2001:DB8::8:800:200C:417A"]
 
 
 def domains(tier):
@@ -88,9 +89,10 @@ def ip_class(s):
     if "%" in s:
         try:
             ipaddress.ip_address(s)
-            return "either"
         except ValueError:
             return "invalid"
+        # RFC 6874 ZoneID = 1*( unreserved / pct-encoded ): anything else after the '%' is not an interface name
+        return "either" if re.fullmatch(r"[A-Za-z0-9._~-]+", s.split("%", 1)[1]) else "invalid"
     try:
         ipaddress.ip_address(s)
         return "valid"
